@@ -433,6 +433,29 @@ def view_c15(o):
     return r
 
 
+def view_det_c15(o):
+    """for run-to-run comparison (C08): the promised ORDER is kept; only rows with a tied sort key are compared as a set
+    (consecutive rows with the same key form one group, sorted inside) — an output that is not sorted by its key, or whose
+    order depends on map iteration, then differs between runs"""
+    if not isinstance(o, dict) or "team" not in o:
+        return o
+
+    def groups(rows, key):
+        out = []
+        for r in rows:
+            k = key(r)
+            if out and out[-1][0] == k:
+                out[-1][1].append(json.dumps(r, sort_keys=True))
+            else:
+                out.append([k, [json.dumps(r, sort_keys=True)]])
+        return [[k, sorted(v)] for k, v in out]
+    r = dict(o)
+    r["team"] = groups(o["team"], lambda t: t["RevsCount"])
+    r["top"] = groups(o["top"], lambda t: t["CommitCount"])
+    r["age"] = groups(o["age"], lambda t: t["Date"])
+    return r
+
+
 def gen_c15(rng, tier):
     nsh, per = (16, 90) if tier == "quick" else (32, 1500)
     return [[{"op": "summary", "commits": rand_commits(rng)} for _ in range(per)] for _ in range(nsh)]
@@ -466,6 +489,7 @@ def make(prop):
         m.gen = gen_c15
         m.oracle = oracle_c15
         m.view = view_c15
+        m.view_det = view_det_c15
         m.nontrivial = lambda c, mo: bool(mo.get("team")) or bool(mo.get("top"))
         m.RULE = ("random commit lists (0-12 commits, 4 authors, creates/modifies/deletes/renames in both notations incl. chains and delete-then-recreate, "
                   "conventional-commit and free subjects, tied sort keys); oracle = independent file-identity semantics; non-trivial = non-empty summary")
